@@ -67,9 +67,18 @@ Fixpoint remove_char (x : ascii) (s : string) : string :=
   | EmptyString => EmptyString
   | String c r => if Ascii.eqb c x then remove_char x r else String c (remove_char x r)
   end.
-Definition starts_with (p s : string) : bool := String.prefix p s.
-Definition strip_prefix (p s : string) : option string :=
-  if String.prefix p s then Some (drop (String.length p) s) else None.
+(* str::strip_prefix / str::starts_with *)
+Fixpoint strip_prefix (p s : string) : option string :=
+  match p with
+  | EmptyString => Some s
+  | String a p' =>
+      match s with
+      | String b s' => if Ascii.eqb a b then strip_prefix p' s' else None
+      | EmptyString => None
+      end
+  end.
+Definition starts_with (p s : string) : bool :=
+  match strip_prefix p s with Some _ => true | None => false end.
 
 (* ------------------------------------------------------------------ 1. rn_decimal *)
 Definition with_sign (s : bool) (x : num) : num := if s then SFopp x else x.
